@@ -646,6 +646,14 @@ pub(crate) fn universal(pre: &Pre, st: &FdlActiveStation, phy: &impl PhyView, no
     } else if !pre.busy(now) && pre.new_bytes() && st.connectivity_state == ConnectivityState::Online {
         vassert!(st.last_bus_activity.map(|t| t >= now).unwrap_or(false), "C01/rx-accounted: newly visible received bytes count as bus activity now");
     }
+    // Bytes that stay in the receive buffer stay accounted: if the station's byte count covered
+    // the buffer before this poll and the poll took nothing out of it (an incomplete telegram is
+    // still waiting for its rest), the count still covers it afterwards - otherwise the same
+    // bytes would be taken for fresh bus activity at every poll and neither the slot time nor the
+    // token-lost time-out could ever expire on a bus that fell silent in the middle of a telegram.
+    if pre.phy_pending > 0 && pre.pending_bytes >= pre.phy_pending && phy.v_pending() == pre.phy_pending {
+        vassert!(st.pending_bytes >= phy.v_pending(), "C06/silence: received bytes that remain buffered are not counted as new bus activity a second time (a truncated telegram followed by silence still runs into the time-outs)");
+    }
     vassert!(inv_fdl(st, napps), "C05/inv: the representation invariant of the station is preserved by poll()");
 }
 
@@ -1202,6 +1210,14 @@ fn step_pass_token(log_on: bool) {
         vassert!(st.gap_state == pre.gap, "C12/one-poll-per-visit: no GAP activity when the visit's poll is already done");
     }
     check_own_pass(&st, &s, ts, pre.ring.ns, attempt, now);
+    // supervision starts from what is buffered NOW: if the station's byte accounting was
+    // consistent with the receive buffer before the pass it is so afterwards, i.e. every byte
+    // that arrives after the pass counts as "heard" (C11: a successor that was heard is never
+    // removed).  (Stale accounting after discarded garbage is a pre-existing state, not created
+    // by the pass.)
+    if pre.pending_bytes <= pre.phy_pending {
+        vassert!(st.pending_bytes <= phy.v_pending(), "C11/heard: passing the token leaves the byte accounting consistent with the receive buffer, so every byte arriving after the pass counts as heard");
+    }
     kani::cover!(pre.ring.ns == ts, "cover: token passed to self when alone");
 }
 
